@@ -394,6 +394,9 @@ func ruleSeqhash(c *Ctx, prop string) {
 			if strings.HasPrefix(r, "poly/") && !casePreserving[r] { // handed to another helper of the module: not followed
 				stD = unknown
 			}
+			if r == "strings.Map" || r == "strings.ToUpperSpecial" || r == "strings.ToTitle" || r == "bytes.ToUpper" || strings.HasPrefix(r, "(*strings.Replacer)") || strings.HasPrefix(r, "(golang.org/x/text") {
+				stD = unknown // may itself be the case normalisation
+			}
 		}
 	}
 	c.judge(stD, "DEPEND", "raw sequence only under ToUpper", h.Pos(), "letter case cannot influence the hash", "the raw sequence is used without upper-casing by: "+strings.Join(raw, ", "))
